@@ -188,4 +188,107 @@ theorem u64le_inj (a b : Nat) (ha : a < 18446744073709551616) (hb : b < 18446744
   simp only [Nat.shiftRight_eq_div_pow] at e0 e1 e2 e3 e4 e5 e6 e7
   omega
 
+/-- concatenating blocks of one fixed positive length is unambiguous -/
+theorem flatten_inj_of_length (n : Nat) (hn : 0 < n) : ∀ (l1 l2 : List Bytes),
+    (∀ x ∈ l1, x.length = n) → (∀ x ∈ l2, x.length = n) → l1.flatten = l2.flatten → l1 = l2
+  | [], [], _, _, _ => rfl
+  | [], y :: t, _, h2, e => by
+    have := congrArg List.length e
+    simp only [List.flatten_nil, List.length_nil, List.flatten_cons, List.length_append] at this
+    have := h2 y List.mem_cons_self
+    omega
+  | x :: t, [], h1, _, e => by
+    have := congrArg List.length e
+    simp only [List.flatten_nil, List.length_nil, List.flatten_cons, List.length_append] at this
+    have := h1 x List.mem_cons_self
+    omega
+  | x :: t1, y :: t2, h1, h2, e => by
+    simp only [List.flatten_cons] at e
+    have hl : x.length = y.length := by rw [h1 x List.mem_cons_self, h2 y List.mem_cons_self]
+    obtain ⟨e1, e2⟩ := List.append_inj e hl
+    rw [e1, flatten_inj_of_length n hn t1 t2 (fun z hz => h1 z (List.mem_cons_of_mem _ hz))
+      (fun z hz => h2 z (List.mem_cons_of_mem _ hz)) e2]
+
+end Poly.Model.Gov
+
+namespace Poly.Model.Gov
+
+/-- One transaction, seen from ledger entry `k`: either it is a committed approval on `k` and the entry moves as
+`ccsCore` says, or the entry is unchanged. -/
+theorem approvalEvent_step (H : Bytes → Bytes) (k : Bytes) (s : State) (op : Op)
+    (hnc : ∀ o, plan H s op = .ok (.done o) → ledgerKeyOf H s op ≠ some k) :
+    match approvalEvent H k s op with
+    | some ((a, cons), f) =>
+        f = (ccsCore (ledgerOf s k) cons a).2 ∧
+        ledgerOf (step H s op) k = (if f then [] else (ccsCore (ledgerOf s k) cons a).1)
+    | none => ledgerOf (step H s op) k = ledgerOf s k := by
+  unfold approvalEvent
+  cases hp : plan H s op with
+  | error e => simp [step, exec, hp]
+  | ok p =>
+    cases p with
+    | done o =>
+      simp only
+      exact ledger_frame H s op k (hnc o hp)
+    | approve ap =>
+      simp only
+      by_cases hk : ledgerKey H ap.method ap.input = k
+      · simp only [hk, if_true]
+        cases hc : checkConsensusSigns H s ap.method ap.input ap.addr with
+        | error e => simp [step, exec, hp, runPlan, hc]
+        | ok r =>
+          obtain ⟨s1, f, ev⟩ := r
+          obtain ⟨gv, pool, cons, hcp, hca, hf, hl, _⟩ := ccs_spec H hc
+          simp only [hcp, hca]
+          cases f with
+          | false =>
+            simp only [Bool.false_and, Bool.false_eq_true, if_false]
+            have hstep : step H s op = s1 := by simp [step, exec, hp, runPlan, hc]
+            rw [hstep, ← hk]
+            exact ⟨hf, by simpa using hl⟩
+          | true =>
+            cases hfire : ap.onFire s1 with
+            | error e =>
+              simp only [Bool.true_and, Except.toBool, Bool.not_false, if_true]
+              simp [step, exec, hp, runPlan, hc, hfire]
+            | ok r2 =>
+              obtain ⟨s2, n⟩ := r2
+              simp only [Bool.true_and, Except.toBool, Bool.not_true, Bool.false_eq_true, if_false]
+              have hstep : step H s op = s2 := by simp [step, exec, hp, runPlan, hc, hfire]
+              have hs2 : ledgerOf s2 k = ledgerOf s1 k := by simp only [ledgerOf, fire_signs H s op ap s1 s2 n hp hfire]
+              rw [hstep, hs2, ← hk]
+              exact ⟨hf, by simpa using hl⟩
+      · simp only [hk, if_false]
+        apply ledger_frame
+        unfold ledgerKeyOf
+        rw [hp]
+        intro e; injection e with e; exact hk e
+
+/-- Over every history in which the request is not withdrawn or replaced, the approvals committed on ledger entry `k`
+apply the action exactly where the ledger run over (approver, consensus addresses) says. -/
+theorem approvalsOn_eq_ledgerRun (H : Bytes → Bytes) (k : Bytes) (s : State) (ops : List Op) (hnc : NoClearOn H k s ops) :
+    (approvalsOn H k s ops).map (·.2) = ledgerRun (ledgerOf s k) ((approvalsOn H k s ops).map (·.1)) := by
+  induction ops generalizing s with
+  | nil => rfl
+  | cons op rest ih =>
+    have hstep := approvalEvent_step H k s op hnc.1
+    simp only [approvalsOn]
+    cases he : approvalEvent H k s op with
+    | none =>
+      rw [he] at hstep
+      simp only at hstep ⊢
+      rw [← hstep]
+      exact ih _ hnc.2
+    | some e =>
+      obtain ⟨⟨a, cons⟩, f⟩ := e
+      rw [he] at hstep
+      simp only at hstep ⊢
+      obtain ⟨hf, hl⟩ := hstep
+      simp only [List.map_cons, ledgerRun]
+      rw [← hf]
+      congr 1
+      have := ih (step H s op) hnc.2
+      rw [hl] at this
+      exact this
+
 end Poly.Model.Gov
